@@ -666,34 +666,49 @@ impl Server for GitSyncServer {
             parent_version_id,
             history_segment,
         };
-        let version_path = self.add_version_by_parent_version_id(&version)?;
-        #[cfg(gothenburgbitfactory_taskchampion_verif)]
-        crate::server::verif::failpoint("git.add_version.after-version-file")?;
-        self.meta.latest_version = version_id;
-        let meta_path = self.write_meta()?;
-        #[cfg(gothenburgbitfactory_taskchampion_verif)]
-        crate::server::verif::failpoint("git.add_version.after-meta")?;
 
-        // Commit and push, reverting if push fails.
-        self.git.stage_and_commit(
-            &self.local_path,
-            &[&version_path, &meta_path],
-            "add version",
-        )?;
-        #[cfg(gothenburgbitfactory_taskchampion_verif)]
-        crate::server::verif::failpoint("git.add_version.after-commit")?;
+        // The push is rejected whenever the remote has moved, even if only by commits that add no
+        // version (a snapshot, a cleanup, another clone's initial commit). In that case the parent
+        // is still the latest version and the version must not be refused: try again on top of
+        // the remote state.
+        let mut attempts = 0;
+        loop {
+            let version_path = self.add_version_by_parent_version_id(&version)?;
+            #[cfg(gothenburgbitfactory_taskchampion_verif)]
+            crate::server::verif::failpoint("git.add_version.after-version-file")?;
+            self.meta.latest_version = version_id;
+            let meta_path = self.write_meta()?;
+            #[cfg(gothenburgbitfactory_taskchampion_verif)]
+            crate::server::verif::failpoint("git.add_version.after-meta")?;
 
-        if !self.push()? {
+            // Commit and push, reverting if push fails.
+            self.git.stage_and_commit(
+                &self.local_path,
+                &[&version_path, &meta_path],
+                "add version",
+            )?;
+            #[cfg(gothenburgbitfactory_taskchampion_verif)]
+            crate::server::verif::failpoint("git.add_version.after-commit")?;
+
+            if self.push()? {
+                break;
+            }
+
             // Push was rejected. Undo the commit. reset_to_remote will fetch, reset --hard,
             // and clean away the stray version file.
             self.git
                 .cmd(&self.local_path, &["reset", "HEAD~1", "--soft"])?;
             self.reset_to_remote()?;
             self.read_meta()?;
-            return Ok((
-                AddVersionResult::ExpectedParentVersion(self.meta.latest_version),
-                SnapshotUrgency::None,
-            ));
+            attempts += 1;
+            let still_latest = self.meta.latest_version == Uuid::nil()
+                || self.meta.latest_version == parent_version_id;
+            if !still_latest || attempts >= 5 {
+                return Ok((
+                    AddVersionResult::ExpectedParentVersion(self.meta.latest_version),
+                    SnapshotUrgency::None,
+                ));
+            }
         }
 
         Ok((AddVersionResult::Ok(version_id), self.snapshot_urgency()))
